@@ -392,14 +392,22 @@ def sliced_requests(variant, tip):
             4: [('pos', tip, 0), ('tx', tip, 1), ('pos', tip - 1, 1)],
             5: [('tx', tip, 0), (0, tip), ('pos', tip, 1)],
             # heights the block processor may already hold in memory but does not serve yet
-            6: [('beyond', tip + 1, 0), ('beyond', tip + 2, 1), ('beyond', tip + 1, 1)]}[variant]
+            6: [('beyond', tip + 1, 0), ('beyond', tip + 2, 1), ('beyond', tip + 1, 1)],
+            # several headers with a checkpoint; TSC proofs
+            7: [('hdrs', tip - 2, 5, tip), ('tsc', tip, 1), ('hdrs', tip - 1, 2, tip), ('tsc', tip - 1, 0)]}[variant]
 
 
 def send_sliced_requests(s, variant, base):
     c = s.x_clients['c1']
     tip0 = len(base) - 1
     for rq in sliced_requests(variant, tip0):
-        if rq[0] == 'beyond':
+        if rq[0] == 'hdrs':
+            rid = c.request('blockchain.block.headers', [rq[1], rq[2], rq[3]])
+        elif rq[0] == 'tsc':
+            pos = min(rq[2], len(base[rq[1]].txs) - 1)
+            rid = c.request('blockchain.transaction.get_tsc_merkle',
+                            [base[rq[1]].txs[pos].txid[::-1].hex(), rq[1], 'txid', 'block_header'])
+        elif rq[0] == 'beyond':
             rid = c.request('blockchain.transaction.id_from_pos', [rq[1], rq[2], bool(rq[2])])
         elif rq[0] == 'pos':
             rid = c.request('blockchain.transaction.id_from_pos',
@@ -432,6 +440,40 @@ def judge_sliced(s, base, y, depth, res):
             res.count('in_flight_refused')
             if isinstance(r['error'], dict) and r['error'].get('code') == -32603:
                 failures.append(('in-flight-request-ended-in-internal-error',
+                                 dict(request=[h, cp] + more)))
+        elif h == 'hdrs':
+            start, count, cpx = cp, more[0], more[1]
+            x = r.get('result')
+            good = False
+            for ch in (base, y):
+                n = x.get('count') if isinstance(x, dict) else None
+                if not isinstance(n, int) or start + n > len(ch) or cpx >= len(ch):
+                    continue
+                if x.get('hex') != b''.join(b.header for b in ch[start:start + n]).hex():
+                    continue
+                if not n:
+                    good = True
+                    continue
+                root = header_merkle_root(ch, cpx + 1)
+                last = start + n - 1
+                if last <= cpx and bytes.fromhex(x.get('root', ''))[::-1] == root and \
+                        fold(ch[last].hash, x.get('branch', ()), last) == root:
+                    good = True
+            if not good:
+                failures.append(('in-flight-proof-verifies-against-no-chain',
+                                 dict(request=[h, cp] + more)))
+        elif h == 'tsc':
+            height, pos = cp, min(more[0], len(base[cp].txs) - 1)
+            want = base[height].txs[pos].txid
+            good = False
+            for ch in (base, y):
+                if height < len(ch):
+                    ids = [t.txid for t in ch[height].txs]
+                    if want in ids:
+                        good = good or check_tx_proof(dict(r, result=dict(r['result'], targetType='block_header')),
+                                                      ch[height], ids.index(want), 'tsc') is None
+            if not good:
+                failures.append(('in-flight-proof-verifies-against-no-chain',
                                  dict(request=[h, cp] + more)))
         elif h == 'beyond':
             # answered: fine if the new chain really has that transaction (the flush may be done)
@@ -542,7 +584,7 @@ def cases_for(tier):
         for i in range(n):
             cases.append(dict(scenario=scn, bound=bound, shard=[i, n]))
     for depth in (1, 2) if q else (1, 2, 3):
-        for variant in range(7):
+        for variant in range(8):
             cases.append(dict(sliced=True, depth=depth, variant=variant))
     # reads of the requests themselves torn by the mutation
     for depth in (1,) if q else (1, 2):
